@@ -235,6 +235,25 @@ func (c *Ctx) checkCleanupOnErrorPaths(rule string, fns []*ssa.Function) {
 						rel = append(rel, in2)
 						return
 					}
+					// a helper of the repository that closes the parameter it receives v for
+					if callee := staticCallee(y); callee != nil && callee.Blocks != nil && p.IsRepoFn(callee) {
+						for i, a := range y.Common().Args {
+							if !sameResource(a, v) || i >= len(callee.Params) {
+								continue
+							}
+							par := callee.Params[i]
+							closes := false
+							for _, c2 := range callsIn(callee) {
+								if closesValue(c2, ssa.Value(par)) {
+									closes = true
+								}
+							}
+							if closes {
+								rel = append(rel, in2)
+								return
+							}
+						}
+					}
 					// defer func() { v.Close() }()
 					if d, isDefer := y.(*ssa.Defer); isDefer {
 						if mc, isMC := d.Call.Value.(*ssa.MakeClosure); isMC && literalClosesCaptured(mc, v) {
@@ -688,6 +707,16 @@ func (c *Ctx) checkDecodeErrorsConsumed(rule string, fns []*ssa.Function) {
 			if !valueUsed {
 				continue
 			}
+			// a call whose arguments are all constants fails or succeeds independently of any input
+			allConst := len(call.Call.Args) > 0
+			for _, a := range call.Call.Args {
+				if _, isK := strip(a).(*ssa.Const); !isK {
+					allConst = false
+				}
+			}
+			if allConst {
+				continue
+			}
 			n++
 			c.check(errUsed, rule, fmt.Sprintf("%s uses the error of %s", p.FnName(fn), name), p.instrPos(call), "", "the value is used and the error discarded: an input the library rejects part-way (a bad digit after a valid prefix, trailing garbage) is accepted with whatever was decoded up to there")
 		}
@@ -814,4 +843,204 @@ func (p *Prog) paramSources(par *ssa.Parameter, depth int, seen map[*ssa.Paramet
 		out = append(out, a)
 	}
 	return out
+}
+
+// ---------- in a codec, a failed step ends the function ----------
+
+// checkErrorBranchesLeave: in fns (pure encoding/decoding code: nothing there logs an error and carries on), the
+// branch taken when an error value is non-nil never flows back into the code that runs when it is nil - it returns,
+// continues the enclosing loop or panics. A failure branch that falls through hands the half-decoded value on as
+// if the step had succeeded.
+func (c *Ctx) checkErrorBranchesLeave(rule string, fns []*ssa.Function) {
+	c.checkErrorBranchesLeaveMode(rule, fns, false)
+}
+
+// checkErrorBranchesLeaveMode with errFuncsOnly: for code that is not a pure codec. Only functions that themselves
+// return an error are examined (a goroutine body or a callback has nobody to report to and logs), and a failure
+// branch may run on into code that can only end in a failure return (logging the error of a clean-up step inside
+// a failure path).
+func (c *Ctx) checkErrorBranchesLeaveMode(rule string, fns []*ssa.Function, errFuncsOnly bool) {
+	p := c.P
+	n := 0
+	nth := map[*ssa.Function]int{}
+	for _, fn := range fns {
+		if fn.Blocks == nil {
+			continue
+		}
+		if errFuncsOnly {
+			res := fn.Signature.Results()
+			if res.Len() == 0 || !isErrorType(res.At(res.Len()-1).Type()) {
+				continue
+			}
+		}
+		for _, b := range fn.Blocks {
+			if len(b.Instrs) == 0 {
+				continue
+			}
+			ifi, ok := b.Instrs[len(b.Instrs)-1].(*ssa.If)
+			if !ok {
+				continue
+			}
+			a, pos := normCond(ifi.Cond)
+			if a.Op != token.EQL {
+				continue
+			}
+			var ev ssa.Value
+			if isNilConst(a.Y) && isErrorType(a.X.Type()) {
+				ev = a.X
+			} else if isNilConst(a.X) && isErrorType(a.Y.Type()) {
+				ev = a.Y
+			}
+			if ev == nil {
+				continue
+			}
+			if errFuncsOnly {
+				// an error variable that closures share is loaded afresh at every use: what a later "return err"
+				// yields cannot be tied to this test
+				if u, isU := strip(ev).(*ssa.UnOp); isU && u.Op == token.MUL {
+					continue
+				}
+			}
+			// successor taken when ev != nil
+			failIdx := 0
+			if pos {
+				failIdx = 1
+			}
+			fail, okb := b.Succs[failIdx], b.Succs[1-failIdx]
+			if fail == okb {
+				continue
+			}
+			n++
+			// does the failure branch reach the success successor without passing the test block again?
+			seen := map[*ssa.BasicBlock]bool{b: true}
+			reaches := false
+			var walk func(x *ssa.BasicBlock)
+			walk = func(x *ssa.BasicBlock) {
+				if seen[x] || reaches {
+					return
+				}
+				seen[x] = true
+				if x == okb {
+					reaches = true
+					return
+				}
+				for _, in := range x.Instrs {
+					if cc, isC := in.(*ssa.Call); isC && exitCallees[calleeName(cc)] {
+						return
+					}
+					if _, isP := in.(*ssa.Panic); isP {
+						return
+					}
+				}
+				for _, sb := range x.Succs {
+					walk(sb)
+				}
+			}
+			walk(fail)
+			if reaches {
+				// Nothing is "carried on with" when the code after the test only returns: no call, store or send
+				// before the return, and the return yields no success - the function reports no error at all (a
+				// deferred logger), or it returns the tested error itself ("if err != nil { cleanup }; return err")
+				// or a fresh one.
+				res := fn.Signature.Results()
+				hasErr := res.Len() > 0 && isErrorType(res.At(res.Len()-1).Type())
+				harmless := true
+				seen3 := map[*ssa.BasicBlock]bool{}
+				var walk3 func(x *ssa.BasicBlock)
+				walk3 = func(x *ssa.BasicBlock) {
+					if seen3[x] || !harmless {
+						return
+					}
+					seen3[x] = true
+					for _, in := range x.Instrs {
+						switch y := in.(type) {
+						case *ssa.Call, *ssa.Go, *ssa.Defer, *ssa.Send, *ssa.MapUpdate, *ssa.Panic:
+							harmless = false
+							return
+						case *ssa.Store:
+							if al, isAl := y.Addr.(*ssa.Alloc); !isAl || al.Heap {
+								harmless = false
+								return
+							}
+						case *ssa.Return:
+							if hasErr {
+								ev2 := strip(retVal(y, len(y.Results)-1))
+								same := ev2 == strip(ev)
+								if ph, isPhi := ev2.(*ssa.Phi); isPhi {
+									for _, e := range ph.Edges {
+										if strip(e) == strip(ev) {
+											same = true
+										}
+									}
+								}
+								if !same && !definitelyNonNil(ev2) {
+									harmless = false
+								}
+							}
+							return
+						case *ssa.RunDefers:
+							// deferred calls run whichever branch was taken
+						}
+					}
+					for _, sb := range x.Succs {
+						walk3(sb)
+					}
+				}
+				walk3(okb)
+				if harmless {
+					reaches = false
+				}
+			}
+			if reaches && errFuncsOnly {
+				// can the code after the test still end in success?
+				success := false
+				seen2 := map[*ssa.BasicBlock]bool{}
+				var walk2 func(x *ssa.BasicBlock)
+				walk2 = func(x *ssa.BasicBlock) {
+					if seen2[x] || success {
+						return
+					}
+					seen2[x] = true
+					if len(x.Instrs) > 0 {
+						if r, isR := x.Instrs[len(x.Instrs)-1].(*ssa.Return); isR {
+							ev2 := strip(retVal(r, len(r.Results)-1))
+							if ph, isPhi := ev2.(*ssa.Phi); isPhi {
+								for _, e := range ph.Edges {
+									if !definitelyNonNil(strip(e)) {
+										success = true
+									}
+								}
+							} else if u, isU := ev2.(*ssa.UnOp); isU && u.Op == token.MUL {
+								// a shared error variable loaded afresh: not decidable here; not counted as success
+							} else if !definitelyNonNil(ev2) {
+								// nil, or whatever a later step returns; "return err" behind its own err != nil test
+								// is a failure return
+								ne := nilCheckEdges(fn, false, func(v ssa.Value) bool { return strip(v) == ev2 })
+								if len(ne) == 0 || reachableWithout(fn, r, ne) != nil {
+									success = true
+								}
+							}
+							return
+						}
+					}
+					for _, sb := range x.Succs {
+						walk2(sb)
+					}
+				}
+				walk2(okb)
+				if !success {
+					reaches = false
+				}
+			}
+			nth[fn]++
+			where := p.blockPos(b)
+			if ifi.Cond.Pos().IsValid() {
+				where = p.Pos(ifi.Cond.Pos())
+			}
+			c.check(!reaches, rule, fmt.Sprintf("%s leaves on a failure (error test #%d)", p.FnName(fn), nth[fn]), where, "", "the branch taken when the error is non-nil runs on into the code for the successful case: what the failed step left behind (a partly decoded message, a short write count) is used as if it were good")
+		}
+	}
+	if n == 0 {
+		c.okTrivial(rule, "error tests in scope", "-", "none")
+	}
 }
